@@ -275,3 +275,31 @@ package upstream
 //@ contract NewConnUpstream
 //@   serves C01 C16
 //@   ensures[fields] result != nil && fresh(result) && result.endpointID == endpointID && result.sess == sess
+
+// ---- round robin is fair (C15) --------------------------------------------------------
+// Next returns upstreams[cursor] and moves the cursor to (cursor+1) mod n
+// ((*loadBalancer).Next#ensures[member], [advance]). pickIdx(c, n, k) is the
+// index returned by the k-th of consecutive calls from cursor c on an unchanged
+// balancer of n upstreams, by that very recursion; the lemmas give its closed
+// form and show that n consecutive calls return n different indices, i.e. every
+// upstream exactly once.
+//@ uninterp pickIdx(c int, n int, k int) int
+//@ uninterp pickPrev(c int, n int, k int) int
+//@ axiom pickSame: forall c int, n int, k int {pickIdx(c, n, k)} :: pickIdx(c, n, k) == pickPrev(c, n, k)
+//@ axiom pickZero: forall c int, n int {pickIdx(c, n, 0)} :: pickIdx(c, n, 0) == c
+//@ axiom pickStep: forall c int, n int, k int {pickIdx(c, n, k)} :: k > 0 ==> pickIdx(c, n, k) == (pickPrev(c, n, k-1) + 1) % n
+
+//@ lemma pickClosedForm(c int, n int, k int)
+//@   serves C15
+//@   opt induction k
+//@   requires[range] 0 <= c && c < n && 0 <= k
+//@   ensures[hint-prev] k > 0 ==> pickIdx(c, n, k-1) == (c + (k-1)) % n
+//@   ensures[closed] pickIdx(c, n, k) == (c + k) % n
+//@ lemma pickWindowDistinct(c int, n int, k1 int, k2 int)
+//@   serves C15
+//@   requires[window] 0 <= c && c < n && 0 <= k1 && k1 < k2 && k2 < n
+//@   ensures[distinct] (c + k1) % n != (c + k2) % n
+//@ lemma pickInRange(c int, n int, k int)
+//@   serves C15
+//@   requires[range] 0 <= c && c < n && 0 <= k
+//@   ensures[in-range] 0 <= (c + k) % n && (c + k) % n < n
